@@ -170,6 +170,9 @@ def check_root_vs_z3(root, origin):
     return fails
 
 
+_FRESH = [0]
+
+
 class _Anno(claripy.Annotation):
     def __init__(self, k, elim, reloc):
         self.k, self._e, self._r = k, elim, reloc
@@ -235,6 +238,22 @@ def derived(r, ch):
         add("op-on-annotated", lambda: r.annotate(a2) + 0)
         add("op-on-annotated", lambda: (r.annotate(a3) + 1)[r.length - 1 : 0])
         add("op-on-annotated", lambda: claripy.Concat(r.annotate(a1), claripy.BVV(0, 8))[7:0])
+    if isinstance(r, claripy.ast.BV) and r.length <= 64:
+        n = r.length
+        # set operations (their variable sets are not recomputed by every path) followed by a substitution
+        u = claripy.BVS("u_%d" % n, n, explicit_name=True)
+        setop = ("union", "intersection", "widen")[ch.pick(3)]
+        add("setop-replace", lambda: claripy.replace(getattr(r, setop)(u), u, claripy.BVS("w_%d" % n, n, explicit_name=True) + 1))
+        add("setop-replace", lambda: claripy.replace(getattr(u, setop)(r), u, claripy.BVV(ch.next() & ((1 << n) - 1), n)))
+        # a rewrite that collapses to an annotated leaf whose plain form is not alive any more (nothing to find in the hash-cons
+        # cache): (z .. ones) & (x .. leaf) sliced to the low part is the leaf itself
+        _FRESH[0] += 1
+        ones = claripy.BVV((1 << n) - 1, n)
+        zero = claripy.BVV(0, n)
+        add("collapse-to-annotated-leaf", lambda: (claripy.Concat(claripy.BVS("cz_%d" % n, n, explicit_name=True), ones)
+                                                   & claripy.Concat(r, claripy.BVS("fresh%d_%d" % (_FRESH[0], n), n, explicit_name=True).annotate(_Anno(ch.pick(3), True, False))))[n - 1 : 0])
+        add("collapse-to-annotated-leaf", lambda: (claripy.Concat(claripy.BVS("cz_%d" % n, n, explicit_name=True), zero)
+                                                   | claripy.Concat(r, claripy.BVS("fresh%d_%d" % (_FRESH[0], n), n, explicit_name=True).annotate(_Anno(ch.pick(3), False, True))))[n - 1 : 0])
     add("canonicalize", lambda: r.canonicalize()[2])
     add("excavate_ite", lambda: claripy.excavate_ite(r))
     add("burrow_ite", lambda: claripy.burrow_ite(r))
